@@ -154,38 +154,39 @@ Definition append_attribute (s : store) (e a : id) : store :=
 Definition get_attribute_node (s : store) (e : id) (name : str) : option id :=
   find (local_is s name) (plain_attrs s e).
 
-(** the value items of [XmlAttribute::set_values]; [None] when a reference cannot be resolved *)
-Fixpoint build_values (s : store) (a : id) (l : list vitem) : option (store * list id) :=
+(** [XmlAttribute::set_values], first half: the old value items lose their parent (fix D54) and
+    the list is emptied *)
+Definition detach_values (s : store) (a : id) : store :=
+  fold_left (fun acc x => upd acc x (with_parent None)) (children_of s a) (upd s a (with_children [])).
+
+(** second half: one new value item per parsed piece, appended in order; [None] when a reference
+    cannot be resolved.  (The code builds all items first, on a throw-away attribute, and extends
+    the list at the end; nothing can be observed in between, and on failure nothing was changed.) *)
+Fixpoint add_values (s : store) (a : id) (l : list vitem) : option store :=
   match l with
-  | [] => Some (s, [])
+  | [] => Some s
   | v :: t =>
     match v with
-    | VText [] => build_values s a t
+    | VText [] => add_values s a t
     | VText tx =>
-      let '(i, s1) := create s (new_item KTx None [] tx false (Some a)) in
-      match build_values s1 a t with Some (s2, r) => Some (s2, i :: r) | None => None end
+      let '(i, s1) := create s (new_item KTx None [] tx false None) in add_values (link s1 a i None) a t
     | VChar name (Some ch) =>
-      let '(i, s1) := create s (new_item KCr None name ch false (Some a)) in
-      match build_values s1 a t with Some (s2, r) => Some (s2, i :: r) | None => None end
+      let '(i, s1) := create s (new_item KCr None name ch false None) in add_values (link s1 a i None) a t
     | VChar _ None => None
     | VEnt name =>
       if entity_known s name
-      then let '(i, s1) := create s (new_item KEr None name [] false (Some a)) in
-           match build_values s1 a t with Some (s2, r) => Some (s2, i :: r) | None => None end
+      then let '(i, s1) := create s (new_item KEr None name [] false None) in add_values (link s1 a i None) a t
       else None
     end
   end.
 
-(** [XmlAttribute::set_values] *)
 Definition set_values (s : store) (a : id) (d : data_info) : store * bool :=
   match d_attr d with
   | None => (s, false)
   | Some l =>
-    match build_values s a l with
+    match add_values (detach_values s a) a l with
+    | Some s1 => (invalidate s1, true)
     | None => (s, false)
-    | Some (s1, vs) =>
-      let s2 := fold_left (fun acc x => upd acc x (with_parent None)) (children_of s1 a) s1 in
-      (invalidate (upd s2 a (with_children vs)), true)
     end
   end.
 
@@ -382,7 +383,8 @@ Definition split_text (k : N) (s : store) (n : id) (kd : kind) (off : N) : store
       if ok then
         let at_ := N.to_nat (N.min off (len d)) in
         let s1 := set_str s n (firstn at_ d) in
-        let '(i, s2) := create s1 (new_item kd None [] (skipn at_ d) false (Some p)) in
+        (* the code creates the tail with the parent id already set; it is linked right away *)
+        let '(i, s2) := create s1 (new_item kd None [] (skipn at_ d) false None) in
         match info_insert_after s2 p i n with
         | (s3, None) => (s3, Ok (RNode (k, i)))
         | (s3, Some OufOfIndex) =>
